@@ -49,7 +49,12 @@ def check(ctx):
             rp = json.load(open(ctx.replay))
             cmd = [ctx.harness_bin("harness"), rp.get("mode", "comm"), str(rp["seed"]), str(rp["case_index"] + 1), str(rp["case_index"])]
         try:
-            out = subprocess.run(cmd, stdout=subprocess.PIPE, timeout=(400 if ctx.tier == "quick" else 4000)).stdout.decode().splitlines()
+            proc = subprocess.run(cmd, stdout=subprocess.PIPE, stderr=subprocess.PIPE, timeout=(400 if ctx.tier == "quick" else 4000))
+            out = proc.stdout.decode().splitlines()
+            ncases = sum(1 for l in out if l.startswith("CASE "))
+            if not ctx.replay and (proc.returncode not in (0, 3) or (proc.returncode == 0 and ncases != n)):
+                ctx.broken_correspondence({"what": f"the harness ended early: {ncases} of {n} cases (exit status {proc.returncode})",
+                                           "cmd": " ".join(cmd), "stderr": proc.stderr.decode(errors="replace")[:1500]})
         except subprocess.TimeoutExpired:
             ctx.broken_correspondence({"what": "the harness did not finish: the library hangs under the simulated kernel "
                                                "(a blocking call the sim-kernel does not see) or spins", "cmd": " ".join(cmd)})
